@@ -80,6 +80,8 @@ def run_unit(unit, tier, seed):
     E = Engine(unit.name, timeout_ms=timeout, max_paths=unit.max_paths, seed=seed,
                cross_solver=(tier == 'thorough'))
     E.int_mode = unit.int_mode
+    E.nonlinear_ok = getattr(unit, 'nonlinear_ok', False)
+    E.deadline = time.time() + (getattr(unit, 'wall_budget_s', None) or (150 if tier == 'quick' else 1800))
     I = Interp(E)
     unit.tier = tier
     unit.conformance_count = 0
